@@ -27,6 +27,9 @@ type evAlpha struct {
 	LagHead bool
 	// DupStale: duplicate / stale deliveries only (a small part of Invalid)
 	DupStale bool
+	// NoFetchErrors: error answers are not given to bifurcation fetches (getbyheight): a refused
+	// head after a failed fetch is correct behaviour (C15), which a liveness oracle must not flag
+	NoFetchErrors bool
 }
 
 func enabledEvents(w *SWorld, a evAlpha) []Ev {
@@ -54,7 +57,7 @@ func enabledEvents(w *SWorld, a evAlpha) []Ev {
 		default:
 			evs = append(evs, Ev{K: "answer", A: "honest"})
 		}
-		if a.Errors {
+		if a.Errors && !(a.NoFetchErrors && o.Kind == "getbyheight") {
 			evs = append(evs, Ev{K: "answer", A: "error"})
 		}
 	}
